@@ -133,8 +133,8 @@ def _delta(I, st0, s, base_pc, base_out, ctlkind, allow_carried=()):
         else:
             d["locals"][name] = v
     for gk, gv in s.ghost.items():
-        if gk in ("lemma_ids", "defs"):
-            continue
+        if gk in ("lemma_ids", "defs") or gk.endswith("_writes") or gk in ("events", "warned"):
+            continue      # ghost logs are write-only: they never influence control flow
         if st0.ghost.get(gk) is not gv and st0.ghost.get(gk) != gv:
             d["carried"][("ghost", gk)] = gv
     return d
@@ -617,7 +617,11 @@ def _with_invariant(I, node, st, spec, inv, ordinal):
     n = spec.n
     label = "loop%d" % ordinal
     # 1. initialisation
-    _inv_obligations(I, st, inv.at(I, st, lo, spec), label + ".init")
+    d0 = inv.at(I, st, lo, spec)
+    s0 = st.fork()
+    for ax in d0.get("axiom_instances", ()):
+        s0.pc.append(ax)
+    _inv_obligations(I, s0, d0, label + ".init")
     results = []
     # 2. preservation / exits from an arbitrary iteration k
     k = smt.fresh("k", smt.I)
@@ -634,7 +638,11 @@ def _with_invariant(I, node, st, spec, inv, ordinal):
             outs = [(s1, c1)] if c1[0] != "next" else I.exec_block(node.body, s1)
             for s2, ctl in outs:
                 if ctl[0] in ("next", "continue"):
-                    _inv_obligations(I, s2, inv.at(I, s2, k + 1, spec), label + ".preserve")
+                    d1 = inv.at(I, s2, k + 1, spec)
+                    s2p = s2.fork()
+                    for ax in d1.get("axiom_instances", ()):
+                        s2p.pc.append(ax)
+                    _inv_obligations(I, s2p, d1, label + ".preserve")
                 elif ctl[0] == "break":
                     results.append((s2, ("next", None)))
                 else:
@@ -646,6 +654,8 @@ def _with_invariant(I, node, st, spec, inv, ordinal):
     sA.pc.append(n >= lo)
     if dn.get("formula") is not None:
         sA.pc.append(dn["formula"])
+    for ax in dn.get("axiom_instances", ()):
+        sA.pc.append(ax)
     for t in _target_names(node.target):
         sA.env[t] = Undefined(t)
     if ctx.feasible(sA.pc):
